@@ -2076,6 +2076,23 @@ impl<'a> VisitMut for Rewriter<'a> {
                         self.n.rule("N9", sp, &format!("{name}! -> vpanic() (requires false)"));
                         replacement = Some(parse_quote!(vpanic()));
                     }
+                    "vec" => {
+                        // N32: `vec![e; n]` -> vrepeat(e, n) (std: `e` is evaluated ONCE and cloned n times; model for Copy elements)
+                        struct Rep { e: Expr, n: Expr }
+                        impl syn::parse::Parse for Rep {
+                            fn parse(i: syn::parse::ParseStream) -> syn::Result<Self> {
+                                let e: Expr = i.parse()?; let _: syn::Token![;] = i.parse()?; let n: Expr = i.parse()?;
+                                if !i.is_empty() { return Err(i.error("trailing tokens")); }
+                                Ok(Rep { e, n })
+                            }
+                        }
+                        if let Ok(r) = em.mac.parse_body::<Rep>() {
+                            let (mut ex, mut nx) = (r.e, r.n);
+                            self.visit_expr_mut(&mut ex); self.visit_expr_mut(&mut nx);
+                            self.n.rule("N32", sp, "vec![e; n] -> vrepeat(e, n) (e evaluated once)");
+                            replacement = Some(parse_quote!(vrepeat(#ex, #nx)));
+                        }
+                    }
                     _ => {}
                 }
             }
